@@ -15,9 +15,11 @@ def dispatch (fam : String) (args : Toks) : String :=
   | "DATE" => Date.handle args
   | "K" => Kernel.handle args
   | "KSPEC" => Kernel.handle args
+  | "KLIST" => Kernel.handleList args
   | "KSPLIT" => Kernel.handleSplit args
   | "KHIST" => Kernel.handleHist args
   | "W" => Wrapper.handle args
+  | "CABI" => Wrapper.handle args
   | "ND" => Nd.handle args
   | "NDPAIR" => Nd.handlePair args
   | "NI" => Nd.handleNI args
